@@ -776,7 +776,7 @@ def propagateCmd (rest : String) : String :=
   | _ => "bad-op"
 
 /-- `lessthan <curve tag> <stmt>*` with `I:<key>:<L|U|N.<size|->.<size text>>` (an instantiation) and
-    `P:<key>:<port>:<0|1 indexed>:<whole>:<elem,elem,…|->` (an assignment to a port); a key is `<id>~<name>~<acc;acc;…|->` as for
+    `P:<key>:<port>:<0|1 indexed>:<whole>:<elem,elem,…|->:<block>` (an assignment to a port; an expression is `<id>/<0|1 fixed>`); a key is `<id>~<name>~<acc;acc;…|->` as for
     `sigassign`. Prints the reported values. -/
 def lessthanCmd (args : List String) : String :=
   match args with
@@ -790,13 +790,17 @@ def lessthanCmd (args : List String) : String :=
       let keyOf (t : String) : LessThanPass.Key := match t.splitOn "~" with
         | [i, n, a] => { id := i, name := n, acc := if a == "-" then [] else (a.splitOn ";").map accOf }
         | _ => { id := t, name := t, acc := [] }
+      let valOf (t : String) : LessThanPass.Val := match t.splitOn "/" with
+        | [v, f] => (v, f == "1")
+        | _ => (t, true)
       let instOf (t : String) : LessThanPass.Inst := match t.splitOn "." with
         | ["L"] => .lessThan
         | ["N", sz, txt] => .num2bits sz.toNat? txt
         | _ => .unknown
       let ss : List LessThanPass.Stmt := toks.map (fun t => match t.splitOn ":" with
         | ["I", k, i] => .inst (keyOf k) (instOf i)
-        | ["P", k, port, ix, whole, elems] => .input (keyOf k) port (ix == "1") whole (if elems == "-" then none else some (elems.splitOn ","))
+        | ["P", k, port, ix, whole, elems, blk] => .input (keyOf k) port (ix == "1") (valOf whole)
+            (if elems == "-" then none else some ((elems.splitOn ",").map valOf)) (blk.toNat?.getD 0)
         | _ => .other)
       let rs := LessThanPass.reported c ss
       if rs.isEmpty then "-" else ",".intercalate rs
